@@ -2,6 +2,7 @@ import NibabelModel.Model.C12
 import NibabelModel.Generated.C12FileTypes
 import NibabelModel.Lemmas.C12_Routes
 import NibabelModel.Lemmas.C12_Hist
+import NibabelModel.Lemmas.C12_Gen
 /-! Props/C12 — property theorems for C12 (all serialisation routes and accepted file names are
     equivalent).  Strings are lists of character codes; `stem` is ARBITRARY everywhere (any bytes:
     dots, spaces, `/`), `e'` is any case mix of a member's extension (`lower e' = lower e`), `z'` any
@@ -689,5 +690,78 @@ theorem routes_equal_holder (cd : Codecs) (hcd : ∀ c b, cd.decomp c (cd.comp c
   · simp [toBytesP, filemapFromIobase, hft]
   · simp [fsRead, fsWrite, hcd]
 
+
+
+/-! ## Stage T — functions of `nibabel/filename_parser.py` TRANSLATED from the working tree on every run
+    (`Generated/C12Funcs.lean`, namespace `Nb.Gen.C12F`) against the model.  A Python `str` is a Lean `String`; the
+    model's `Str` is its list of code points (`PyS.codes`).  `str.lower()/upper()` are the ASCII folds of
+    `Basic/PyStrC12.lean` (equal to Python's on strings whose cased characters are ASCII — trusted, `pyop` stream). -/
+section StageT
+open Nb.Py Nb.Py.V Nb.PyS
+
+/-- **gen_endswith_eq** — the translated `_endswith` is the model's `endsWith` (on code points), for all strings. -/
+theorem gen_endswith_eq (w e : String) :
+    Gen.C12F.py_endswith (.str w) (.str e) = .ok (.bool (endsWith (codes w) (codes e))) :=
+  GenT.gen_endswith_eq w e
+
+example : Gen.C12F.py_endswith (.str "f.NII") (.str ".NII") = .ok (.bool true) := by
+  rw [gen_endswith_eq]; congr 2
+
+/-- **gen_iendswith_eq** — the translated `_iendswith` (`whole.lower().endswith(end.lower())`) is the model's
+    `iendsWith`, for all strings. -/
+theorem gen_iendswith_eq (w e : String) :
+    Gen.C12F.py_iendswith (.str w) (.str e) = .ok (.bool (iendsWith (codes w) (codes e))) :=
+  GenT.gen_iendswith_eq w e
+
+example : Gen.C12F.py_iendswith (.str "f.Nii") (.str ".nII") = .ok (.bool true) := by
+  rw [gen_iendswith_eq]; congr 2
+
+/-- **gen_slice_is_cutEnd** — the two Python slices `filename[:extpos]`, `filename[extpos:]` with
+    `extpos = -len(ext)` (including `-0 = 0`) are the model's `cutEnd`. -/
+theorem gen_slice_is_cutEnd (fn : String) (n : Nat) :
+    (codes (PyS.sliceTo fn (-(n : Int))), codes (PyS.sliceFrom fn (-(n : Int)))) = cutEnd (codes fn) n :=
+  GenT.cut_codes fn n
+
+example : (codes (PyS.sliceTo "f.gz" (-(0 : Nat) : Int)), codes (PyS.sliceFrom "f.gz" (-(0 : Nat) : Int))) =
+    ([], [102, 46, 103, 122]) := by decide
+
+/-- **gen_splitext_addext_loop_partial** — the suffix-search loop of the translated `splitext_addext`
+    (`for ext in addexts: if endswith(filename, ext): …; break` with `endswith` a function-valued local chosen by
+    `match_case`), started in ANY state with `_brk1 = False`, `filename = fn`, ends in a state whose `filename` /
+    `addext` / break flag are: cut at the FIRST suffix the model's `endsFn` accepts (`List.find?`), or unchanged and
+    not broken.  With `gen_slice_is_cutEnd` this is the first half of the model's `splitextAddext`.
+    PARTIAL: the tail (`rfind('.')`, `strip('.') == ''`, final slices — ingredients `GenT.splitLast_rfindL`,
+    `GenT.strip_empty`, `GenT.rfindL_lt` are proved) is not yet assembled into
+    `gen_splitext_addext_eq`; `gen_parse_filename_eq`, `gen_types_filenames_eq` are missing (those functions are
+    tied to the model by the `gen` correspondence stream only). -/
+theorem gen_splitext_addext_loop_partial (mc : Bool) (fn : String) (A : List String)
+    (s : Gen.C12F.splitext_addext_Locals)
+    (hb : s._brk1 = .bool false) (hf : s.filename = .str fn) (he : s.endswith = GenT.tag mc) :
+    ∃ s', Gen.C12F.splitext_addext_loop1 (ofList (A.map V.str)) s = .ok (.next s') ∧
+      match A.find? (fun e => endsFn mc (codes fn) (codes e)) with
+      | Option.some e => s'.filename = .str (PyS.sliceTo fn (-(e.toList.length : Int))) ∧
+          s'.addext = .str (PyS.sliceFrom fn (-(e.toList.length : Int))) ∧ s'._brk1 = .bool true
+      | Option.none => s'.filename = .str fn ∧ s'._brk1 = .bool false :=
+  GenT.sae_loop mc fn A s hb hf he
+
+example : ∃ s : Gen.C12F.splitext_addext_Locals, s._brk1 = .bool false ∧ s.filename = .str "f.nii.GZ" ∧
+    s.endswith = GenT.tag false ∧ [".gz", ".bz2"].find? (fun e => endsFn false (codes "f.nii.GZ") (codes e)) = Option.some ".gz" :=
+  ⟨⟨.str "f.nii.GZ", .nil, .bool false, .bool false, .none, .none, GenT.tag false, .none, .none, .none⟩, rfl, rfl, rfl,
+    by decide⟩
+
+/-- **gen_splitLast_is_rfind** — the model's `splitLast c` is Python's `s.rfind(c)` followed by the two slices. -/
+theorem gen_splitLast_is_rfind (c : Nat) (l : List Nat) :
+    splitLast c l = (rfindL c l).map (fun i => (l.take i, l.drop i)) :=
+  GenT.splitLast_rfindL c l
+
+example : splitLast 46 [102, 46, 97, 46, 98] = Option.some ([102, 46, 97], [46, 98]) := by decide
+
+/-- **gen_strip_empty_is_all_dots** — `filename.strip(c) == ''` is the model's `all (· = c)` test. -/
+theorem gen_strip_empty_is_all_dots (f : String) (c : Nat) : (PyS.strip f c == "") = (codes f).all (· = c) :=
+  GenT.strip_empty f c
+
+example : (PyS.strip "..." 46 == "") = true ∧ (PyS.strip ".a." 46 == "") = false := by decide
+
+end StageT
 
 end Nb.C12
